@@ -270,19 +270,23 @@ Definition rtake (w : nat) (r : rstate) : option (list bool * rstate) :=
 Definition read_fixed (w : nat) (r : rstate) : option (Z * rstate) :=
   match rtake w r with Some (h, r') => Some (val_of h, r') | None => None end.
 
-(* VBR(w): bit by bit; k = data bits left in the current chunk, pw = weight of the next data bit *)
-Fixpoint read_vbr_bits (w : nat) (k : nat) (pw acc : Z) (n : Z) (bs : list bool) : option (Z * Z * list bool) :=
+(* VBR(w): bit by bit; k = data bits left in the current chunk, pw = weight of the next
+   data bit.  Only the canonical encoding is accepted: a chunk after the first one must
+   carry a non-zero data part when it is the last (first = this is the first chunk,
+   nz = a 1 was seen in the data bits of the current chunk). *)
+Fixpoint read_vbr_bits (w : nat) (k : nat) (first nz : bool) (pw acc : Z) (n : Z) (bs : list bool) : option (Z * Z * list bool) :=
   match bs with
   | [] => None
   | b :: bs' =>
     match k with
-    | O => if b then read_vbr_bits w (w - 1) pw acc (n + 1) bs' else Some (acc, n + 1, bs')
-    | S k' => read_vbr_bits w k' (2 * pw) (acc + Z.b2z b * pw) (n + 1) bs'
+    | O => if b then read_vbr_bits w (w - 1) false false pw acc (n + 1) bs'
+           else if first || nz then Some (acc, n + 1, bs') else None
+    | S k' => read_vbr_bits w k' first (nz || b) (2 * pw) (acc + Z.b2z b * pw) (n + 1) bs'
     end
   end.
 
 Definition read_vbr (w : nat) (r : rstate) : option (Z * rstate) :=
-  match read_vbr_bits w (w - 1) 1 0 0 (snd r) with
+  match read_vbr_bits w (w - 1) true false 1 0 0 (snd r) with
   | Some (v, n, bs') => Some (v, (fst r + n, bs'))
   | None => None
   end.
